@@ -1,6 +1,7 @@
 package ech
 
 import (
+	"bytes"
 	"context"
 	"fmt"
 	"io"
@@ -101,7 +102,8 @@ type Conn struct {
 	outer *clientHello
 	inner *clientHello
 
-	hpkeCtx *hpke.Receipient
+	hpkeCtx    *hpke.Receipient
+	hpkeConfig []byte // the config of the key that hpkeCtx was set up with
 
 	keys             []Key
 	debugf           func(string, ...any)
@@ -200,32 +202,40 @@ func (c *Conn) processEncryptedClientHello(h *clientHello, isRetry bool) (*clien
 		}) == -1 {
 			continue
 		}
-		if c.hpkeCtx == nil && len(h.echExt.Enc) > 0 {
+		ctx := c.hpkeCtx
+		if ctx != nil && !bytes.Equal(c.hpkeConfig, key.Config) {
+			// A retried hello is bound to the key that opened the first one.
+			continue
+		}
+		if ctx == nil && len(h.echExt.Enc) > 0 {
 			echPriv, err := hpke.ParseHPKEPrivateKey(cfg.KEM, key.PrivateKey)
 			if err != nil {
 				return nil, err
 			}
 			info := append([]byte("tls ech\x00"), key.Config...)
-			ctx, err := hpke.SetupReceipient(cfg.KEM, h.echExt.CipherSuite.KDF, h.echExt.CipherSuite.AEAD, echPriv, info, h.echExt.Enc)
-			if err != nil {
+			if ctx, err = hpke.SetupReceipient(cfg.KEM, h.echExt.CipherSuite.KDF, h.echExt.CipherSuite.AEAD, echPriv, info, h.echExt.Enc); err != nil {
 				continue
 			}
-			c.hpkeCtx = ctx
 		}
-		if c.hpkeCtx == nil {
+		if ctx == nil {
 			return nil, ErrIllegalParameter
 		}
 		aad, err := h.marshalAAD()
 		if err != nil {
 			return nil, err
 		}
-		innerBytes, err = c.hpkeCtx.Open(aad, h.echExt.Payload)
+		b, err := ctx.Open(aad, h.echExt.Payload)
 		if err != nil {
 			continue
 		}
 		if string(cfg.PublicName) != h.ServerName {
 			return nil, ErrIllegalParameter
 		}
+		// Keep the context of the key that opened the payload. It is
+		// needed if the hello is retried.
+		c.hpkeCtx, c.hpkeConfig = ctx, key.Config
+		innerBytes = b
+		break
 	}
 	if innerBytes == nil {
 		// Section 7.1.1, regarding a retried ClientHello:
